@@ -177,7 +177,7 @@ func genLaplacian(g *vlib.G) {
 		{n: 1, directed: true}, {n: 2, directed: true}, {n: 3, directed: true},
 		{n: 4, directed: true},
 	} {
-		forGraphs(s, s.stride <= 1, func(key string, mk func() *built) {
+		forGraphs(s, s.stride <= 1 && !s.rotate, func(key string, mk func() *built) {
 			g.Case(key, func(t *vlib.T) { checkLaplacian(t, mk()) })
 		})
 		if g.Stopped() {
@@ -373,11 +373,11 @@ func zeros(v []float64) int {
 func genDiffuse(g *vlib.G) {
 	for _, s := range []graphSpace{
 		{n: 1}, {n: 2}, {n: 3}, {n: 4},
-		{n: 5, stride: vlib.Pick(g, 4, 1), offset: vlib.Pick(g, 1, 0)},
+		{n: 5, rotate: true},
 		{n: 2, directed: true}, {n: 3, directed: true},
-		{n: 4, directed: true, stride: vlib.Pick(g, 8, 1), offset: vlib.Pick(g, 1, 0)},
+		{n: 4, directed: true, stride: vlib.Pick(g, 4, 1), offset: vlib.Pick(g, 1, 0), rotate: true},
 	} {
-		forGraphs(s, s.stride <= 1, func(key string, mk func() *built) {
+		forGraphs(s, s.stride <= 1 && !s.rotate, func(key string, mk func() *built) {
 			g.Case(key, func(t *vlib.T) { checkDiffuse(t, mk()) })
 		})
 		if g.Stopped() {
